@@ -26,6 +26,9 @@ func (h *Hist) genConfigs() {
 	if focus == "rotate" || focus == "fleet" {
 		h.globalDry = false
 	}
+	if focus == "churn" || focus == "down" {
+		h.globalDry = false
+	}
 	if focus == "fleet" {
 		ng = 1 // fleet scale-ups take seconds of real time: keep taint stamps of other groups out of the same scan
 	}
@@ -39,11 +42,17 @@ func (h *Hist) genConfigs() {
 		upper := r.rng(lower+1, 75)
 		up := r.rng(upper+1, 110)
 		slow := r.rng(0, 3)
+		if focus == "down" {
+			slow = r.rng(1, 3)
+		}
 		fast := r.rng(slow, slow+4)
 		if r.chance(10) {
 			fast = 50
 		}
 		minN, maxN := r.rng(0, 3), 0
+		if focus == "restore" {
+			minN = r.rng(2, 5)
+		}
 		maxN = minN + r.rng(1, 9)
 		if r.chance(25) || focus == "autodisc" {
 			minN, maxN = 0, 0 // auto-discover
@@ -53,7 +62,7 @@ func (h *Hist) genConfigs() {
 		cool := r.pickI(60, 120, 300)
 		o := controller.NodeGroupOptions{
 			Name: name, LabelKey: "grp", LabelValue: fmt.Sprintf("v%d", i), CloudProviderGroupName: fmt.Sprintf("asg%d", i),
-			MinNodes: minN, MaxNodes: maxN, DryMode: r.chance(12) || (focus == "dry" && r.chance(60)), ScaleOnStarve: r.chance(30),
+			MinNodes: minN, MaxNodes: maxN, DryMode: (r.chance(12) && focus != "churn" && focus != "down") || (focus == "dry" && r.chance(map[bool]int{true: 85, false: 60}[slowOK])), ScaleOnStarve: r.chance(30),
 			TaintLowerCapacityThresholdPercent: lower, TaintUpperCapacityThresholdPercent: upper, ScaleUpThresholdPercent: up,
 			SlowNodeRemovalRate: slow, FastNodeRemovalRate: fast,
 			SoftDeleteGracePeriod: fmt.Sprintf("%ds", soft), HardDeleteGracePeriod: fmt.Sprintf("%ds", hard),
@@ -115,6 +124,12 @@ func (h *Hist) genConfigs() {
 		nNodes := r.rng(effMin, effMax)
 		if focus == "rotate" && r.chance(85) {
 			nNodes = effMin
+		}
+		if focus == "restore" && effMin > 0 {
+			nNodes = effMin - r.pickI(0, 1, 1, 2) // at or just under the minimum: the restore branch again and again
+			if nNodes < 0 {
+				nNodes = 0
+			}
 		}
 		switch r.intn(12) + map[bool]int{true: 100, false: 0}[focus == "rotate"] {
 		case 0:
@@ -335,6 +350,9 @@ func (h *Hist) pctChoice(gi int) (int, int) {
 	if focus == "up" && h.r.chance(60) {
 		return su + h.r.rng(1, 150), 0
 	}
+	if focus == "down" && h.r.chance(75) {
+		return h.r.rng(0, up), 0
+	}
 	if focus == "bands" && h.r.chance(50) {
 		return []int{lo, up, su}[h.r.intn(3)], h.r.rng(-2, 2)
 	}
@@ -400,6 +418,15 @@ func (h *Hist) randomEvent() string {
 	if focus == "autodisc" && r.chance(45) {
 		ev = r.pickI(14, 14, 14, 0, 21, 10, 13) // the cloud group's own minimum and maximum move; load changes; time
 	}
+	if focus == "down" && r.chance(60) {
+		ev = r.pickI(10, 11, 12, 0, 1, 8, 13) // time passes between scale-down scans; a taint is lifted by hand now and then
+	}
+	if focus == "churn" && r.chance(75) {
+		ev = r.pickI(4, 4, 5, 13, 13, 14, 14, 21, 0, 10, 18) // nodes come due for removal, instances arrive, the cloud group's minimum and desired size move
+	}
+	if focus == "restore" && r.chance(75) {
+		ev = r.pickI(10, 11, 12, 10, 6, 6, 4, 14, 13, 0, 19) // time around the cool-down, cordons, tainted nodes to reuse, the minimum moves, few deliveries
+	}
 	if focus == "rotate" && r.chance(70) {
 		ev = r.pickI(0, 1, 2, 3, 21, 10, 13) // mostly load changes across all bands, time, deliveries: keep the group at its minimum
 	}
@@ -432,6 +459,9 @@ func (h *Hist) randomEvent() string {
 	if focus == "cooldown" && r.chance(45) {
 		ev = r.pickI(10, 11, 12, 21, 4, 5, 6) // advances around the cool-down, load changes, taints and cordons inside the window
 	}
+	if focus == "dry" && slowOK && r.chance(75) {
+		ev = r.pickI(21, 21, 10, 11, 12, 13) // a dry group that keeps wanting more, across cool-downs and provider rebuilds
+	}
 	if focus == "fleet" && r.chance(55) {
 		ev = r.pickI(21, 21, 13, 10, 11, 5, 0) // mostly load (high), deliveries, time; some force taints
 	}
@@ -446,8 +476,15 @@ func (h *Hist) randomEvent() string {
 			if r.chance(75) {
 				t.Rel = true
 				t.Ago = []int64{0, 1, soft - 1, soft, soft + 1, hard - 1, hard, hard + 1, 2 * hard, -100, soft / 2}[r.intn(11)]
+				if focus == "churn" {
+					t.Ago = []int64{hard + 1, 2 * hard, soft + 1}[r.intn(3)]
+				} else if r.chance(12) {
+					// centuries away in either direction: time.Time.Sub saturates at about 292.47 years (9223372036 s)
+					t.Ago = []int64{-9223372035, -9223372036, -9223372037, -9223372038, -10000000000, -9467280000, 9223372036, 9223372037, 10000000000}[r.intn(9)]
+				}
 			} else {
-				t.Raw = r.pick("", "abc", "12x", "+5", "-3", " 7", "99999999999999999999", "9223372036854775807", "-9223372036854775808", "1_000", "9223372036854775806", "0", "1.5", "0x10", "٣")
+				t.Raw = r.pick("", "abc", "12x", "+5", "-3", " 7", "99999999999999999999", "9223372036854775807", "-9223372036854775808", "1_000", "9223372036854775806", "0", "1.5", "0x10", "٣",
+					"253402300799", "253402300800", "-62135596800", "-62135596801", "99999999999", "11000000000")
 			}
 			n.Taints = append(n.Taints, t)
 			if r.chance(10) { // a second escalator taint: only the first is read
@@ -482,7 +519,7 @@ func (h *Hist) randomEvent() string {
 		}
 	case 9:
 		if n := pickNode(); n != nil {
-			n.Taints = append(n.Taints, WTaint{Key: r.pick("foreign/a", "foreign/b"), Effect: "NoSchedule", Raw: r.pick("1", "")})
+			n.Taints = append(n.Taints, WTaint{Key: r.pick("foreign/a", "foreign/b", "foreign/a", escKey+"-nodegroup", escKey+"x", "atlassian.com/escalato", "Atlassian.com/escalator", forceKey+"d"), Effect: "NoSchedule", Raw: r.pick("1", "")})
 			return "foreign-taint"
 		}
 	case 10, 11, 12:
@@ -508,6 +545,16 @@ func (h *Hist) randomEvent() string {
 		which := r.intn(4)
 		if focus == "autodisc" {
 			which = r.pickI(0, 1, 1, 1, 2, 3)
+		}
+		if g.Max == 0 {
+			// parked before: somebody opens the group again
+			g.Max = int64(r.rng(1, 6))
+			return "asg-unpark"
+		}
+		if r.chance(12) {
+			// parked: the cloud group's minimum, maximum and desired size go to zero while its instances are still around
+			g.Min, g.Max, g.Desired = 0, 0, 0
+			return "asg-park"
 		}
 		switch which {
 		case 0:
@@ -613,7 +660,7 @@ func (h *Hist) randomEvent() string {
 		}
 	default:
 		p, j := h.pctChoice(gi)
-		if (focus == "cooldown" || focus == "fleet") && r.chance(60) {
+		if (focus == "cooldown" || focus == "fleet" || (focus == "dry" && slowOK)) && r.chance(60) {
 			p, j = o.ScaleUpThresholdPercent+r.rng(20, 200), 0
 		}
 		h.setLoad(gi, p, j)
@@ -650,6 +697,9 @@ func (h *Hist) runHistory(scans int) (bool, string) {
 		}
 		faults := map[int]bool{}
 		failDesc := map[string]bool{}
+		if focus == "down" && h.r.chance(45) {
+			faults[h.r.rng(1, 6)] = true // a GET or an UPDATE of the taint loop is refused
+		}
 		if h.r.chance(25) || (focus == "faults" && h.r.chance(60)) {
 			nf := h.r.pickI(1, 1, 2, 3)
 			if focus == "faults" {
@@ -667,7 +717,7 @@ func (h *Hist) runHistory(scans int) (bool, string) {
 				faults[0] = true // the refresh itself (costs 5 s of real sleep per retry)
 			}
 		}
-		if slowOK && (focus == "cooldown" || focus == "up") && h.r.chance(35) {
+		if slowOK && (focus == "cooldown" || focus == "up" || focus == "dry" || focus == "churn") && h.r.chance(35) {
 			faults[0] = true // credentials refresh fails inside (or outside) a cool-down: the provider is rebuilt
 		}
 		if h.r.chance(10) {
